@@ -11,19 +11,24 @@ EXTENDS Entries, Sequences, TLC
 
 CONSTANTS Universe, MaxCalls,
           PutAtomic,    \* pruning and writing of an insert happen in one table access (D11 when FALSE)
-          FailKeepsTx   \* a store call that fails leaves the open write transaction alone (FALSE: it is dropped)
+          FailKeepsTx,  \* a store call that fails leaves the open write transaction alone (FALSE: it is dropped)
+          RemoveAtomic  \* remove_replica clears records, index, heads and settings in one table access (FALSE: the records
+                        \* go in one access and the heads / settings in another, and the age-based commit can fall between)
 
 VARIABLES durable,   \* committed contents
           work,      \* contents as seen through the open transaction
+          dheads,    \* committed per-author heads (a derived table of its own: latest-by-author)
+          wheads,    \* heads as seen through the open transaction
           txopen,    \* a write transaction is open
           aged,      \* the open transaction is older than MAX_COMMIT_DELAY
           pending,   \* remaining access steps of the call in progress: sequence of <<kind, entry>>
           boundary,  \* history: specified contents at every call boundary since (and including) the last commit point
           acked,     \* history: the contents according to the acknowledged calls (sequential meaning, Entries!Put)
           ncalls, crashed
-vars == <<durable, work, txopen, aged, pending, boundary, acked, ncalls, crashed>>
+vars == <<durable, work, dheads, wheads, txopen, aged, pending, boundary, acked, ncalls, crashed>>
 
-Init == /\ durable = {} /\ work = {} /\ txopen = FALSE /\ aged = FALSE /\ pending = <<>>
+NoHeads == HeadsOf({})
+Init == /\ durable = {} /\ work = {} /\ dheads = NoHeads /\ wheads = NoHeads /\ txopen = FALSE /\ aged = FALSE /\ pending = <<>>
         /\ boundary = {{}} /\ acked = {} /\ ncalls = 0 /\ crashed = FALSE
 
 \* the access steps of Store::put for entry e
@@ -33,7 +38,17 @@ Steps(e) == IF PutAtomic THEN << <<"check", e>>, <<"prune+put", e>> >>
 BeginInsert(e) ==
   /\ ~crashed /\ pending = <<>> /\ ncalls < MaxCalls
   /\ pending' = Steps(e) /\ ncalls' = ncalls + 1
-  /\ UNCHANGED <<durable, work, txopen, aged, boundary, acked, crashed>>
+  /\ UNCHANGED <<durable, work, dheads, wheads, txopen, aged, boundary, acked, crashed>>
+
+\* remove_replica of the (closed) document: everything of it goes - in one table access, or (RemoveAtomic = FALSE) the
+\* records in one and the heads in another
+NoEntry == [a |-> 0, k |-> <<>>, ts |-> 0, h |-> 0, len |-> 0]
+RemoveSteps == IF RemoveAtomic THEN << <<"remove", NoEntry>> >>
+               ELSE << <<"remove-records", NoEntry>>, <<"remove-heads", NoEntry>> >>
+BeginRemove ==
+  /\ ~crashed /\ pending = <<>> /\ ncalls < MaxCalls
+  /\ pending' = RemoveSteps /\ ncalls' = ncalls + 1
+  /\ UNCHANGED <<durable, work, dheads, wheads, txopen, aged, boundary, acked, crashed>>
 
 \* a store call whose closure fails after the write transaction was opened (set_download_policy / register_useful_peer
 \* on a missing document, a capability clash on import): Store::modify returns the error
@@ -41,8 +56,10 @@ FailingCall ==
   /\ ~crashed /\ pending = <<>> /\ ncalls < MaxCalls
   /\ LET commitFirst == txopen /\ aged
          dur == IF commitFirst THEN work ELSE durable
-     IN /\ durable' = dur
+         dh == IF commitFirst THEN wheads ELSE dheads
+     IN /\ durable' = dur /\ dheads' = dh
         /\ work' = IF FailKeepsTx THEN work ELSE dur
+        /\ wheads' = IF FailKeepsTx THEN wheads ELSE dh
         /\ txopen' = FailKeepsTx
         /\ aged' = FALSE
         /\ boundary' = IF commitFirst THEN {acked} ELSE boundary
@@ -55,41 +72,51 @@ Access ==
   /\ LET commitFirst == txopen /\ aged
          dur == IF commitFirst THEN work ELSE durable
          s == Head(pending)  e == s[2]
-         w2 == CASE s[1] = "check" -> work
+         isRemove == s[1] \in {"remove", "remove-records", "remove-heads"}
+         w2 == CASE s[1] \in {"remove", "remove-records"} -> {}
+                 [] s[1] = "remove-heads" -> work
+                 [] s[1] = "check" -> work
                  [] s[1] = "prune" -> IF PutOk(work, e) THEN work \ Pruned(work, e) ELSE work
                  [] s[1] = "put" -> IF PutOk(work \cup Pruned(work, e), e) \/ TRUE THEN (work \ {f \in work : SameId(f, e)}) \cup {e} ELSE work
                  [] s[1] = "prune+put" -> Put(work, e)
          \* a rejected insert stops after the check
          rest == IF s[1] = "check" /\ ~PutOk(work, e) THEN <<>> ELSE Tail(pending)
-     IN /\ durable' = dur
-        /\ work' = w2
+         \* the heads table follows every write of an entry; a removal clears it in the step that owns it
+         h2 == CASE s[1] \in {"remove", "remove-heads"} -> NoHeads
+                 [] s[1] = "remove-records" -> wheads
+                 [] OTHER -> HeadsOf(w2)
+         done == IF isRemove THEN {} ELSE Put(acked, e)
+     IN /\ durable' = dur /\ dheads' = (IF commitFirst THEN wheads ELSE dheads)
+        /\ work' = w2 /\ wheads' = h2
         /\ txopen' = TRUE
         /\ aged' = FALSE
         /\ pending' = rest
         \* a commit restarts the history of candidate boundaries at the committed state; finishing a call adds one
-        /\ acked' = IF rest = <<>> THEN Put(acked, e) ELSE acked
-        /\ boundary' = (IF commitFirst THEN (IF pending = Steps(e) THEN {acked} ELSE boundary) ELSE boundary)
-                       \cup (IF rest = <<>> THEN {Put(acked, e)} ELSE {})
+        /\ acked' = IF rest = <<>> THEN done ELSE acked
+        /\ boundary' = (IF commitFirst THEN (IF pending \in {Steps(e), RemoveSteps} THEN {acked} ELSE boundary) ELSE boundary)
+                       \cup (IF rest = <<>> THEN {done} ELSE {})
   /\ UNCHANGED <<ncalls, crashed>>
 
 Tick == /\ ~crashed /\ txopen /\ ~aged /\ aged' = TRUE
-        /\ UNCHANGED <<durable, work, txopen, pending, boundary, acked, ncalls, crashed>>
+        /\ UNCHANGED <<durable, work, dheads, wheads, txopen, pending, boundary, acked, ncalls, crashed>>
 
 \* flush / snapshot read between two calls
 Flush == /\ ~crashed /\ pending = <<>> /\ txopen
-         /\ durable' = work /\ txopen' = FALSE /\ aged' = FALSE /\ boundary' = {acked}
-         /\ UNCHANGED <<work, pending, acked, ncalls, crashed>>
+         /\ durable' = work /\ dheads' = wheads /\ txopen' = FALSE /\ aged' = FALSE /\ boundary' = {acked}
+         /\ UNCHANGED <<work, wheads, pending, acked, ncalls, crashed>>
 
 Crash == /\ ~crashed /\ crashed' = TRUE
-         /\ UNCHANGED <<durable, work, txopen, aged, pending, boundary, acked, ncalls>>
+         /\ UNCHANGED <<durable, work, dheads, wheads, txopen, aged, pending, boundary, acked, ncalls>>
 
-Next == (\E e \in Universe : BeginInsert(e)) \/ FailingCall \/ Access \/ Tick \/ Flush \/ Crash
+Next == (\E e \in Universe : BeginInsert(e)) \/ BeginRemove \/ FailingCall \/ Access \/ Tick \/ Flush \/ Crash
 Spec == Init /\ [][Next]_vars
 
 \* C06: the state found after a crash is one the live store had between two complete calls,
 \* not older than the last flush
 CrashStateIsBoundary == crashed => durable \in boundary
 DurableIsNormal == durable = Kept(durable)
+\* whatever instant the process dies, the per-author heads found agree with the records found
+DurableDerivedAgree == dheads = HeadsOf(durable)
 \* between two calls the live store holds exactly what the acknowledged calls say
 LiveIsAcked == (pending = <<>>) => work = acked
 =============================================================================
